@@ -198,12 +198,14 @@ const _: () = {
             let TextOrFiles::Files(files) = &mut self.text_ot_files else {
                 return Err((|| Error::ExpectedFile())())
             };
+            // lazily: `files.pop().unwrap_unchecked()` must not be
+            // evaluated for an empty file input (no file at all)
             (files.len() == 1)
-                .then_some({
+                .then(|| {
                     let file = unsafe {files.pop().unwrap_unchecked()};
-                    visitor.visit_map(file.into_deserializer())?
+                    visitor.visit_map(file.into_deserializer())
                 })
-                .ok_or_else(Error::UnexpectedMultipleFiles)
+                .ok_or_else(Error::UnexpectedMultipleFiles)?
         }
 
         fn deserialize_seq<V>(self, visitor: V) -> Result<V::Value, Self::Error>
